@@ -102,11 +102,11 @@ def dimensionIndex (x : PMInput) (i : Nat) : Nat :=
 def plane (x : PMInput) (i j : Nat) : List Cell := (List.range (x.r * x.c)).map (fun k => x.cell i k j)
 
 /-- the checks of the constructor that concern the array, the mappings and the positions -/
-def admit (x : PMInput) : Except ErrKind (Int × String × Int × Int × Int × Int) := do
+def admission (x : PMInput) : Except ErrKind (Int × String × Int × Int × Int × Int) := do
   let _ ← pmSyntaxAdmitted x.ts x.dtypeKind
   if x.ndim ≠ 2 ∧ x.ndim ≠ 3 ∧ x.ndim ≠ 4 then .error .value
   else if x.nMappingLists = 0 then .error .type
-  else if (x.ndim = 4) ≠ x.nested then .error .type
+  else if decide (x.ndim = 4) != x.nested then .error .type
   else if x.nMappingLists ≠ x.m then .error .value
   else if x.nPositions ≠ x.n then .error .value
   else
@@ -122,7 +122,7 @@ def loopNest {α} (n m : Nat) (f : Nat → Nat → α) : List α :=
   (List.range n).flatMap (fun i => (List.range m).map (fun j => f i j))
 
 def build (x : PMInput) : Except ErrKind PMObject := do
-  let (_, attr, ba, bs, hb, pr) ← admit x
+  let (_, attr, ba, bs, hb, pr) ← admission x
   let multi := decide (x.m > 1)
   .ok {
     element := attr, bitsAllocated := ba, bitsStored := bs, highBit := hb, pixelRepresentation := pr,
